@@ -22,11 +22,15 @@ class World(object):
         self.ps = [None, dc.P(), dc.P()]
         self.shape = shape
         self.p0 = dc.P()          # shape 1: the delegate of the overridden base-class declarations - a stranger to D
-        self.d = dc.D(par=self.ps[1]) if shape == 0 else dc.DSub(par=self.ps[1], par0=self.p0)
+        if shape == 2:
+            self.d = dc.DLink()
+            self.d.holder.par = self.ps[1]
+        else:
+            self.d = dc.D(par=self.ps[1]) if shape == 0 else dc.DSub(par=self.ps[1], par0=self.p0)
         from traits.api import DelegatesTo, PrototypedFrom
         self.d.add_trait("da", DelegatesTo("par", "xa"))           # deferred traits given to the object at run time
         self.d.add_trait("dpa", PrototypedFrom("par", "xpa"))
-        self.d2 = (dc.D2 if shape == 0 else dc.D2Sub)(par=self.d)
+        self.d2 = (dc.D2Sub if shape == 1 else dc.D2)(par=self.d)
         self.logs = {x: [] for x in ATTRS}
         for x in ATTRS:
             self.d.on_trait_change(self._mk(x), x)
@@ -67,7 +71,7 @@ class World(object):
 
 def run_history(rnd, steps, t):
     from traits.trait_errors import TraitError
-    w = World(rnd.randint(0, 1))
+    w = World(rnd.choice([0, 1, 2]))
     out = []
     for s in range(steps):
         pre = w.state()
